@@ -23,6 +23,7 @@ META = {
                 'fixed point is shown for the trivial QR/SVD factorisation family plus Galerkin consistency for arbitrary frames', 'rounding / conditioning'],
     'assumptions': ['micro-solver contract: returns the unique solution of a nonsingular system'],
     'tv_per_scenario': {'quick': 1, 'thorough': 2},
+    'tv_all': ['descent'],
 }
 
 
@@ -384,3 +385,69 @@ def mals_rank(ctx, shape, max_rank, use_theta):
         return sol.ranks
     res = ctx.explore('mals ranks', body)
     ctx.check('at least one feasible path', len(res) >= 1)
+
+
+# --------------------------------------------- the inequalities and exactness themselves (concrete only)
+def _spd_tt(TT, ttmod, rng, dims, rank, cplx):
+    """Hermitian positive-definite TT operator  C^H C + I  from a random TT operator C (NumPy data)"""
+    d = len(dims)
+    rk = [1] + [rank] * (d - 1) + [1]
+    cs = [rng.randn(rk[i], dims[i], dims[i], rk[i + 1]) + (1j * rng.randn(rk[i], dims[i], dims[i], rk[i + 1]) if cplx else 0) for i in range(d)]
+    C = TT([0.5 * c for c in cs])
+    return C.transpose(conjugate=True) @ C + ttmod.eye(dims)
+
+
+@scenario('C07', 'descent', lambda tier: [{'dims': dims, 'method': m, 'solver': sv, 'cplx': c} for dims in ([2, 3, 2], [3, 2], [2, 2, 1, 2])
+                                           for m in ('als', 'mals') for sv in ('solve', 'lu') for c in (False, True) if not (m == 'mals' and len(dims) < 3 and sv == 'lu')])
+def descent(ctx, dims, method, solver, cplx):
+    """NOT a solver verdict (the inequalities need spectral arguments): on random Hermitian positive-definite operators the validation run checks the
+    property's own sentences numerically -- energy-norm error never above that of the guess and non-increasing in repeats 1..3, exact solution as
+    guess returned, maximal-rank guess gives the exact solution after one sweep, dims of the rhs, rank statements"""
+    TT, sle = ctx.R.TT, ctx.R.sle
+    if ctx.mode == 'tv':
+        from symtt.core import SkipTV
+        raise SkipTV()
+    if ctx.sym:
+        ctx.held('energy descent / monotonicity / exactness are checked numerically by the validation run of this scenario (sampling, stated in the evidence)')
+        return
+    d = len(dims)
+    rng = np.random.RandomState(7 + 13 * d + (5 if cplx else 0))
+    A = _spd_tt(TT, ctx.R.tt, rng, dims, 2, cplx)
+    Ad = np.asarray(A.matricize())
+    N = Ad.shape[0]
+    rmax = [1] + [min(int(np.prod(dims[:i])), int(np.prod(dims[i:]))) for i in range(1, d)] + [1]
+
+    def rand_vec(rk):
+        return TT([rng.randn(rk[i], dims[i], 1, rk[i + 1]) + (1j * rng.randn(rk[i], dims[i], 1, rk[i + 1]) if cplx else 0) for i in range(d)])
+    xs = rand_vec([1] + [min(2, r) for r in rmax[1:-1]] + [1])
+    b = A @ xs
+    bd = np.asarray(b.matricize()).reshape(-1)
+    sol = np.linalg.solve(Ad, bd)
+
+    def err(t):
+        e = np.asarray(t.matricize()).reshape(-1) - sol
+        return float(np.real(np.vdot(e, Ad @ e)))
+    kw = {'solver': solver}
+    if method == 'mals':
+        kw.update(threshold=1e-14, max_rank=8)
+    run = getattr(sle, method)
+    guess = rand_vec([1] + [min(2, r) for r in rmax[1:-1]] + [1])
+    e0 = err(guess)
+    errs = [err(run(A, guess, b, repeats=k, **kw)) for k in (1, 2, 3)]
+    tol = 1e-9 * max(1.0, e0)
+    ctx.check('%s/%s: energy-norm error never above that of the initial guess and non-increasing in repeats' % (method, solver),
+              errs[0] <= e0 + tol and errs[1] <= errs[0] + tol and errs[2] <= errs[1] + tol, detail='%.3e -> %s' % (e0, ['%.3e' % e for e in errs]))
+    back = run(A, xs, b, repeats=1, **kw)
+    ctx.check('%s/%s: the exact solution given as initial guess is returned' % (method, solver), err(back) <= 1e-16 * max(1.0, float(np.linalg.norm(sol)) ** 2) * N * 1e4,
+              detail='energy error %.3e' % err(back))
+    full = run(A, rand_vec(rmax), b, repeats=1, **kw)
+    ctx.check('%s/%s: a guess of maximal ranks gives the exact solution after one sweep' % (method, solver),
+              float(np.linalg.norm(np.asarray(full.matricize()).reshape(-1) - sol)) <= 1e-8 * max(1.0, float(np.linalg.norm(sol))),
+              detail='error %.3e' % float(np.linalg.norm(np.asarray(full.matricize()).reshape(-1) - sol)))
+    ctx.check('%s/%s: result has the dimensions of the right-hand side' % (method, solver), full.row_dims == b.row_dims and full.col_dims == b.col_dims)
+    if method == 'als':
+        r1 = run(A, guess, b, repeats=2, **kw)
+        ctx.check('als: no rank raised', all(a_ <= b_ for a_, b_ in zip(r1.ranks, guess.ranks)))
+    else:
+        r1 = sle.mals(A, guess, b, repeats=2, solver=solver, threshold=1e-14, max_rank=2)
+        ctx.check('mals: ranks <= max_rank', max(r1.ranks) <= 2)
